@@ -32,12 +32,16 @@ def make_batch(spec):
     # the dataset may hand out its one-hot labels in another dtype (int64 straight from one_hot, float64): the reference keeps
     # float32 copies, the samples carry the configured dtype
     ldt = {"float32": torch.float32, "int64": torch.int64, "float64": torch.float64}[spec.get("label_dtype", "float32")]
+    # images may be float64 (numpy's default) - the reference keeps float32 copies of the same values
+    xdt = {"float32": torch.float32, "float64": torch.float64}[spec.get("x_dtype", "float32")]
     samples = []
     for k in range(B):
         items = []
         for it in spec["mode"]:
             if it == "x":
-                items.append(xs[k].clone())
+                xk = xs[k].clone().to(xdt)
+                # 'permuted': the dataset stores images channels-last; a collator in front of the mix collator turns the batch into NCHW
+                items.append(xk.permute(1, 2, 0).contiguous() if spec.get("layout") == "permuted" else xk)
             elif it == "class":
                 items.append(ys[k].clone().to(ldt) if K > 1 else ys[k].clone())
             elif it == "index":
@@ -107,9 +111,34 @@ def check(spec):
                     return item.roll(shifts=2, dims=0), None
             cls = RollTwoCollator
         try:
-            coll = cls(dataset_mode=mode, return_ctx=True, **kw)
+            if spec.get("reassign_shuffle"):
+                # the collator is re-configured after construction (public attribute): partners follow the mode that is set when a batch arrives
+                first = "roll" if kw["shuffle_mode"] != "roll" else "random"
+                coll = cls(dataset_mode=mode, return_ctx=True, **dict(kw, shuffle_mode=first))
+                coll.shuffle_mode = kw["shuffle_mode"]
+            else:
+                coll = cls(dataset_mode=mode, return_ctx=True, **kw)
         except AssertionError:
             raise Refused("constructor assertion")
+        if spec.get("layout") == "permuted":
+            from kappadata.collators import KDComposeCollator, KDSingleCollator
+            xpos, nitems = spec["mode"].index("x"), len(spec["mode"])
+
+            class ToChannelsFirst(KDSingleCollator):
+                @property
+                def default_collate_mode(self):
+                    return "before"
+
+                def collate(self, batch, dataset_mode, ctx=None):
+                    # a permuted *view*: the batch that reaches the next collator is not contiguous
+                    if nitems == 1:
+                        return batch.permute(0, 3, 1, 2)
+                    out = list(batch)
+                    out[xpos] = out[xpos].permute(0, 3, 1, 2)
+                    return type(batch)(out) if isinstance(batch, (tuple, list)) else out
+            inner = coll
+            coll = KDComposeCollator([ToChannelsFirst(), inner], dataset_mode=mode, return_ctx=True)
+            coll.set_rng = inner.set_rng
     coll.set_rng(np.random.default_rng(spec["seed"]))
     xs, ys, samples = make_batch(spec)
     if kw["shuffle_mode"] == "flip" and B % 2 == 1 and B > 1:
@@ -223,7 +252,10 @@ def spec_s(draw, mae=False):
             "mixup_alpha": draw(st.sampled_from([0.1, 0.8, 1.0, 4.0])), "cutmix_alpha": draw(st.sampled_from([0.1, 1.0, 4.0])),
             "seed": draw(st.integers(0, 2 ** 32 - 1)), "mae": mae,
             "label_dtype": draw(st.sampled_from(["float32", "float32", "int64", "float64"])),
-            "user_shuffle": (not mae) and draw(st.integers(0, 4)) == 0}
+            "user_shuffle": (not mae) and draw(st.integers(0, 4)) == 0,
+            "x_dtype": draw(st.sampled_from(["float32", "float32", "float64"])),
+            "layout": None if mae else draw(st.sampled_from([None, None, "permuted"])),
+            "reassign_shuffle": (not mae) and draw(st.integers(0, 3)) == 0}
 
 
 FACETS = [
